@@ -50,16 +50,28 @@ func runC20(c *Ctx) {
 	r.Rule("rescan", "a tokenizer function whose loop walks input / lineStarts with a local index (not the tokenizer's own cursor) must not be reachable from a call site inside a per-token or per-comment loop")
 	r.Rule("string-accumulation", "no string is built by s = s + x (or s += x) on a loop-carried variable in tokenizer, parser or ast serialiser code; use strings.Builder")
 	r.Rule("input-copy", "string(t.input) (or another O(n) conversion of the whole input) inside a loop occurs only on a path that leaves the loop")
-	c20Rescan(c, p)
-	c20Accum(c, p)
+	c20Rescan(c, p, "pkg/sql/tokenizer", nil)
+	c20Accum(c, p, nil, "pkg/sql/tokenizer", "pkg/sql/parser", "pkg/sql/ast")
 	c20InputCopy(c, p)
 	c20SearchInLoop(c, p)
 	c20AccumulatorScan(c, p)
+	// both rules expect zero reports on the repaired tree: positive controls keep them from passing vacuously
+	if c.Controls {
+		if cp := c.Control("c20"); cp != nil {
+			fired := map[string]bool{}
+			c20Rescan(c, cp, "gosqlxsa/controls/c20", fired)
+			c20Accum(c, cp, fired, "gosqlxsa/controls/c20")
+			r.Control("rescan", fired["(*c20.Scanner).All|locate->locate"] && !fired["(*c20.Scanner).All|locateResumed->locateResumed"] && fired["resumed|(*c20.Scanner).locateResumed|memo"] && fired["(*c20.Scanner).All|locateForgetful->locateForgetful"], "controls/c20 Scanner.All calls locate (rescans, reported), locateResumed (memo read and written back, accepted) and locateForgetful (memo read but not written on the early return, reported)")
+			r.Control("string-accumulation", fired["c20.joinParts|concat#1"] && !fired["c20.joinBuilder|concat#1"], "controls/c20 joinParts (s += in a loop) and joinBuilder (strings.Builder)")
+		}
+	}
 }
 
-func c20Rescan(c *Ctx, p *core.Prog) {
+// c20Rescan runs the rescan rule over the functions of package scope; with fired != nil it only records the keys it would
+// report (positive control).
+func c20Rescan(c *Ctx, p *core.Prog, scope string, fired map[string]bool) {
 	r := c.R
-	fns := p.SrcFuncs("pkg/sql/tokenizer")
+	fns := p.SrcFuncs(scope)
 	// parameters that receive the tokenizer's input / line index at some call site
 	inputLike := map[*ssa.Parameter]bool{}
 	for _, fn := range fns {
@@ -98,6 +110,7 @@ func c20Rescan(c *Ctx, p *core.Prog) {
 	// rescanners: functions with a loop over input / lineStarts driven by a local index that starts at a
 	// fixed point (0, or len-1 counting down) instead of continuing from the tokenizer's cursor
 	rescanner := map[*ssa.Function]string{}
+	resumed := map[string]string{}
 	for _, fn := range fns {
 		for _, scc := range blockSCCs(fn, nil, nil, nil) {
 			in := blockSet(scc)
@@ -113,6 +126,10 @@ func c20Rescan(c *Ctx, p *core.Prog) {
 					}
 					// ascending: i < len(X)
 					if what := isInputLen(bo.Y); what != "" {
+						if f := memoResumed(fn, ph, in); f != "" {
+							resumed[core.FnName(fn)+"|"+f] = p.Pos(ph.Pos())
+							continue
+						}
 						rescanner[fn] = "loop over " + what + " with a local index"
 						continue
 					}
@@ -130,12 +147,31 @@ func c20Rescan(c *Ctx, p *core.Prog) {
 			}
 		}
 	}
+	var rk []string
+	for k := range resumed {
+		rk = append(rk, k)
+	}
+	sort.Strings(rk)
+	if fired != nil {
+		for _, k := range rk {
+			fired["resumed|"+k] = true
+		}
+		rk = nil
+	}
+	for _, k := range rk {
+		r.OK("rescan", "resumed|"+k, resumed[k], "the scan starts where the previous call stopped (receiver field read as the start, written with the end on every path out): calls with non-decreasing offsets cost the distance between them")
+	}
+	if len(rk) > 0 {
+		r.Assume("memo-resumed scans (" + strings.Join(rk, ", ") + ") are linear in total when offsets are asked for in non-decreasing order; the tokenizer asks for token start, token end, comment start and comment end in source order, which is read, not proved")
+	}
 	if len(rescanner) == 0 {
-		r.OK("rescan", "tokenizer", "-", "no function walks input/lineStarts with a local index")
+		if fired == nil {
+			r.OK("rescan", "tokenizer", "-", "no function walks input/lineStarts with a local index that restarts on every call")
+		}
 		return
 	}
 	// transitive callers inside the package
-	inPkg := func(f *ssa.Function) bool { return f != nil && f.Blocks != nil && core.InPkgs(f, "pkg/sql/tokenizer") }
+	inPkg := func(f *ssa.Function) bool { return f != nil && f.Blocks != nil && core.InPkgs(f, scope) }
 	g := p.Restrict(inPkg)
 	reachesRescan := map[*ssa.Function]*ssa.Function{}
 	var rsSorted []*ssa.Function
@@ -182,9 +218,16 @@ func c20Rescan(c *Ctx, p *core.Prog) {
 				}
 				seen[key] = true
 				n++
+				if fired != nil {
+					fired[key] = true
+					continue
+				}
 				r.Violate("rescan", key, p.Pos(call.Pos()), "called once per loop iteration, and "+rs.Name()+" ("+rescanner[rs]+") rescans from the start each time: total work is quadratic in the input")
 			}
 		}
+	}
+	if fired != nil {
+		return
 	}
 	r.Extra("rescanning_functions", names)
 	if n == 0 {
@@ -192,11 +235,118 @@ func c20Rescan(c *Ctx, p *core.Prog) {
 	}
 }
 
-func c20Accum(c *Ctx, p *core.Prog) {
+// memoResumed: the loop's index starts (on some entry edge) at a field of the receiver, and the index is written back to
+// that field on every path from the loop to a return. Returns the field name, or "".
+func memoResumed(fn *ssa.Function, ph *ssa.Phi, in map[*ssa.BasicBlock]bool) string {
+	if len(fn.Params) == 0 || fn.Signature.Recv() == nil {
+		return ""
+	}
+	recv := fn.Params[0]
+	// the receiver itself, or a load of the cell it was spilled to (a closure captures it)
+	isRecv := func(v ssa.Value) bool {
+		if v == ssa.Value(recv) {
+			return true
+		}
+		if u, ok := v.(*ssa.UnOp); ok && u.Op == token.MUL {
+			if al, ok := u.X.(*ssa.Alloc); ok {
+				n := 0
+				for _, ref := range core.Referrers(al) {
+					if st, ok := ref.(*ssa.Store); ok && st.Addr == ssa.Value(al) {
+						n++
+						if st.Val != ssa.Value(recv) {
+							return false
+						}
+					}
+				}
+				return n == 1
+			}
+		}
+		return false
+	}
+	// entry leaves of the index
+	var leaves []ssa.Value
+	seen := map[ssa.Value]bool{}
+	var expand func(v ssa.Value, d int)
+	expand = func(v ssa.Value, d int) {
+		if seen[v] || d > 6 {
+			return
+		}
+		seen[v] = true
+		if q, ok := v.(*ssa.Phi); ok {
+			for i, e := range q.Edges {
+				if q == ph && in[q.Block().Preds[i]] {
+					continue // back edge
+				}
+				expand(e, d+1)
+			}
+			return
+		}
+		leaves = append(leaves, v)
+	}
+	expand(ph, 0)
+	field := -1
+	name := ""
+	for _, l := range leaves {
+		if u, ok := l.(*ssa.UnOp); ok && u.Op == token.MUL {
+			if fa, ok := u.X.(*ssa.FieldAddr); ok && isRecv(fa.X) {
+				field, name = fa.Field, core.FieldName(fa.X.Type(), fa.Field)
+			}
+		}
+	}
+	if field < 0 {
+		return ""
+	}
+	// blocks that write the index (or a merge of it) back to the field
+	writes := map[*ssa.BasicBlock]bool{}
+	for _, b := range fn.Blocks {
+		for _, ins := range b.Instrs {
+			st, ok := ins.(*ssa.Store)
+			if !ok {
+				continue
+			}
+			fa, ok := st.Addr.(*ssa.FieldAddr)
+			if !ok || !isRecv(fa.X) || fa.Field != field {
+				continue
+			}
+			if st.Val == ssa.Value(ph) {
+				writes[b] = true
+			} else if q, ok := st.Val.(*ssa.Phi); ok {
+				for _, e := range q.Edges {
+					if e == ssa.Value(ph) {
+						writes[b] = true
+					}
+				}
+			}
+		}
+	}
+	if len(writes) == 0 {
+		return ""
+	}
+	// no return is reachable from the loop without passing a write
+	seenB := map[*ssa.BasicBlock]bool{}
+	work := []*ssa.BasicBlock{ph.Block()}
+	for len(work) > 0 {
+		b := work[len(work)-1]
+		work = work[:len(work)-1]
+		if seenB[b] || writes[b] {
+			continue
+		}
+		seenB[b] = true
+		if len(b.Instrs) > 0 {
+			if _, ok := b.Instrs[len(b.Instrs)-1].(*ssa.Return); ok {
+				return ""
+			}
+		}
+		work = append(work, b.Succs...)
+	}
+	return name
+}
+
+func c20Accum(c *Ctx, p *core.Prog, fired map[string]bool, scope ...string) {
 	r := c.R
 	n := 0
 	scanned := 0
-	for _, fn := range p.SrcFuncs("pkg/sql/tokenizer", "pkg/sql/parser", "pkg/sql/ast") {
+	for _, fn := range p.SrcFuncs(scope...) {
 		scanned++
 		lb := loopBlocks(fn)
 		seq := 0
@@ -218,9 +368,16 @@ func c20Accum(c *Ctx, p *core.Prog) {
 				}
 				n++
 				seq++
+				if fired != nil {
+					fired[core.FnName(fn)+sprintf("|concat#%d", seq)] = true
+					continue
+				}
 				r.Violate("string-accumulation", core.FnName(fn)+sprintf("|concat#%d", seq), p.Pos(bo.Pos()), "a string is extended with + on every iteration of a loop: each step copies everything accumulated so far (quadratic in the number of iterations)")
 			}
 		}
+	}
+	if fired != nil {
+		return
 	}
 	r.OK("string-accumulation", "scan", "-", sprintf("%d functions scanned, %d loop-carried concatenations", scanned, n))
 	r.Floor("string-accumulation", scanned, 300, "functions scanned")
